@@ -24,7 +24,7 @@ enum { OP_END = 0, OP_CR = 1, OP_JN = 2, OP_TJ = 3, OP_DT = 4, OP_YD = 5, OP_EX 
        OP_BAR = 15, OP_JCDEC = 16, OP_JCWAIT = 17, OP_UCWAIT = 18, OP_UCSIG = 19,
        OP_FEWL = 20, OP_FEMS = 21, OP_ONCE = 22, OP_KSET = 23, OP_KGET = 24, OP_SLEEP = 25,
        OP_TLK = 26, OP_TJN = 27, OP_SETV = 28, OP_WAITV = 29, OP_NEST = 30, OP_PROBE = 31,
-       OP_KCREATE = 32, OP_KDELETE = 33, OP_CANCEL = 34, OP_TESTCANCEL = 35, OP_BUSY = 36 };
+       OP_KCREATE = 32, OP_KDELETE = 33, OP_CANCEL = 34, OP_TESTCANCEL = 35, OP_BUSY = 36, OP_FELK = 37, OP_FEUL = 38 };
 enum { F_PF = 1, F_DETACH = 2, F_STACK = 4, F_ATTR = 8, F_NULLID = 16, F_DIRTY = 32 };
 
 typedef struct { int op, a, b, c; } op_t;
@@ -290,6 +290,10 @@ static int exec_op(int k, op_t *o, long *ret){
       myth_felock_mark_and_signal(&fes[o->a], o->b);
       U("U_FeMarkRet", 3, (long)k, FEID(o->a), (long)o->b); break;
     case OP_BUSY: { volatile int j; for (j = 0; j < o->a; j++) { } break; }
+    case OP_FELK: /* plain lock / unlock of a full/empty lock (its mutex), mixed with the status operations */
+      U("U_LockCall", 2, (long)k, VMX(fes[o->a].mutex)); myth_felock_lock(&fes[o->a]); U("U_LockRet", 2, (long)k, VMX(fes[o->a].mutex)); break;
+    case OP_FEUL:
+      U("U_UnlockCall", 2, (long)k, VMX(fes[o->a].mutex)); myth_felock_unlock(&fes[o->a]); U("U_UnlockRet", 2, (long)k, VMX(fes[o->a].mutex)); break;
     case OP_PROBE: break;
     default: fprintf(stderr, "mythprog: unknown op %d\n", o->op); exit(2);
     }
